@@ -217,4 +217,69 @@ theorem bytecount_mismatch_rtu_fc (fc : UInt8) (hfc : fc = 1 ∨ fc = 2 ∨ fc =
   rcases hfc with rfl | rfl | rfl | rfl | rfl <;>
     exact bytecount_mismatch_rtu _ _ (by omega) v sp hmis
 
+/-! ### the error bit: whatever else a frame looks like, with the high bit of its function byte set the dispatchers never
+return it as a response (of any length: a response-shaped frame with the bit set included) -/
+
+theorem respTCPfc_supported (fc : UInt8) (s : Slice) (x : UInt16 × Resp) (h : parseRespTCPfc fc s = .ok x) :
+    fc &&& 128 = 0 := by
+  unfold parseRespTCPfc at h
+  split at h <;> first | decide | (exact absurd h (by simp))
+
+theorem respRTUfc_supported (fc : UInt8) (s : Slice) (x : Resp) (h : parseRespRTUfc fc s = .ok x) :
+    fc &&& 128 = 0 := by
+  unfold parseRespRTUfc at h
+  split at h <;> first | decide | (exact absurd h (by simp))
+
+/-- TCP dispatcher: a returned response has the error bit of byte 7 clear -/
+theorem error_bit_never_response_tcp (v sp : Bytes) (x : UInt16 × Resp)
+    (h : parseTCPResponse ⟨v, sp⟩ = .ok x) : (v.getD 7 0) &&& 128 = 0 := by
+  unfold parseTCPResponse at h
+  dsimp only at h
+  by_cases h8 : v.length < 8
+  · simp [h8] at h
+  · simp only [h8, if_false] at h
+    cases he : asTCPErrorPacket ⟨v, sp⟩ with
+    | panic => rw [he] at h; simp [Res.bind] at h
+    | err e => rw [he] at h; simp [Res.bind] at h
+    | ok e =>
+      rw [he] at h
+      cases e with
+      | some e => simp [Res.bind] at h
+      | none =>
+        simp only [Res.bind_ok] at h
+        rw [Lemmas.idx_eq v sp 7 (by omega)] at h
+        simp only [Res.bind_ok] at h
+        exact respTCPfc_supported _ _ x h
+
+/-- RTU dispatchers (with and without the CRC check): a returned response has the error bit of byte 1 clear -/
+theorem error_bit_never_response_rtu (v sp : Bytes) (x : Resp)
+    (h : parseRTUResponse ⟨v, sp⟩ = .ok x) : (v.getD 1 0) &&& 128 = 0 := by
+  unfold parseRTUResponse at h
+  dsimp only at h
+  by_cases h4 : v.length < 4
+  · simp [h4] at h
+  · simp only [h4, if_false] at h
+    cases he : asRTUErrorPacket ⟨v, sp⟩ with
+    | panic => rw [he] at h; simp [Res.bind] at h
+    | err e => rw [he] at h; simp [Res.bind] at h
+    | ok e =>
+      rw [he] at h
+      cases e with
+      | some e => simp [Res.bind] at h
+      | none =>
+        simp only [Res.bind_ok] at h
+        rw [Lemmas.idx_eq v sp 1 (by omega)] at h
+        simp only [Res.bind_ok] at h
+        exact respRTUfc_supported _ _ x h
+
+theorem error_bit_never_response_rtu_crc (v sp : Bytes) (x : Resp)
+    (h : parseRTUResponseWithCRC ⟨v, sp⟩ = .ok x) : (v.getD 1 0) &&& 128 = 0 := by
+  unfold parseRTUResponseWithCRC at h
+  dsimp only at h
+  split at h
+  · simp at h
+  · split at h
+    · simp at h
+    · exact error_bit_never_response_rtu v sp x h
+
 end Modbus.Properties.C02
